@@ -24,6 +24,8 @@ func checkC18(p *load.Program, r *kit.Report) {
 		func(o *kit.Obligation) bool { return strings.HasPrefix(o.Construct, "load/heights-only") }, "ORDER")
 	importRules(p, r, "C01", "`on the current best chain` is relative to repo.longest: Longest() must pick the branch with the most accumulated work", 1, nil, "ARGMAX")
 	importRules(p, r, "C09", "the height-map arm of the lookups compares with header(height): it must refuse heights beyond the tip, or a trimmed (invalidated) block still in the files verifies as best chain", 6, nil, "TIP-BOUND")
+	importRules(p, r, "C17", "`on the current best chain` is a comparison with repo.longest: after an invalidation removed branches the tip must be re-selected on every path, or blocks of a deleted branch keep verifying as best chain", 1,
+		func(o *kit.Obligation) bool { return strings.HasPrefix(o.Construct, "MarkHeaderInvalid/reselect-after-trim") }, "MUST-PASS")
 	importRules(p, r, "C17", "a header removed by Trim must leave the branch's hash map, or GetHeader binds a proof that names its hash to the header that replaced it", 2, nil, "TRIM-SHAPE")
 	importRules(p, r, "C17", "a header removed by Trim must leave the branch's hash map, or GetHeader binds a proof that names its hash to the header that replaced it", 2, nil, "SHRINK-SIBLING")
 	r.NotDecided = "that the lookups answer truthfully for every history (C09); the merkle path arithmetic inside the dependency (CalculateRoot); proof corruption cases as values."
@@ -244,6 +246,8 @@ func checkC18(p *load.Program, r *kit.Report) {
 }
 
 func checkC19(p *load.Program, r *kit.Report) {
+	r.Rule("BASE-LABEL", "the locator entry of a side branch carries the height its hash was read at", 1)
+	checkSideBaseLabel(p, r, "BASE-LABEL")
 	importRules(p, r, "C09", "a peer's reply connects to a locator hash only if that hash is found at its true height: the labels Truncate/Connect/Consolidate write when Clean rebuilds the branches", 11, nil, "HEIGHT-LABEL")
 	importRules(p, r, "C17", "locators are built from the best chain: a descendant branch that survives the trim of an invalidated header keeps the invalidated chain as the tip the locator starts from", 2, nil, "TRIM-SHAPE")
 	importRules(p, r, "C11", "after a restart the best chain is what Branch.Save wrote: headers of an abandoned chain left in a branch file come back between the fork and the tip, and the locator names them", 2,
